@@ -9,7 +9,7 @@ Machine = hgm.FcnMachine
 
 PROP = {
     "id": "C17",
-    "quick_n": 200,
+    "quick_n": 300,
     "thorough_n": 4000,
     "rule": "one program = a record representation (dict, attribute object, bare scalar), wrapper "
             "scenarios (a lambda / def / string expression from the arithmetic-boolean grammar, a "
@@ -91,7 +91,7 @@ def decorate(r, spec, rec):
         q = s["q"]
         if rec == "scalar":
             q["e"] = field0(q["e"])
-        form = r.choice(["lam", "def", "str"])
+        form = r.choice(["lam", "lamd", "def", "str"])
         q["form"], q["rec"], q["fname"] = form, rec, r.choice(["myfn", "getx"])
         ws = [w for w in ["ser", "cached"] if r.random() < 0.5]
         explicit = r.choice([None, "n1", "alpha"])
@@ -111,7 +111,7 @@ def gen_one(r, i, tier):
     meta = {"rec": rec, "wraps": []}
     for _ in range(r.randint(3, 5)):
         e = rand_expr(r, g, rec)
-        sd = {"form": r.choice(["lam", "def", "str"]), "e": e, "fname": r.choice(["myfn", "getx"])}
+        sd = {"form": r.choice(["lam", "lamd", "def", "str"]), "e": e, "fname": r.choice(["myfn", "getx"])}
         ws = rand_wops(r, default_name(sd))
         recs = records(r, rec, r.randint(2, 4), none_p=0.5)
         ds = [copy.deepcopy(r.choice(recs)) for _ in range(r.randint(6, 12))]
@@ -133,6 +133,19 @@ def gen_one(r, i, tier):
         if r.random() < 0.4:
             sd2 = dict(sd, e=rand_expr(r, g, rec))
             ops.append(("feq", sd, ws, sd2, ws, rec))
+    # a (cached) wrapper called with arrays and with single records, interleaved
+    if rec == "dict":
+        e = rand_expr(r, g, rec)
+        sd = {"form": r.choice(["lam", "def", "str"]), "e": e, "fname": "myfn"}
+        recs = records(r, rec, 3)
+        calls = []
+        batches = [[copy.deepcopy(r.choice(recs)) for _ in range(r.randint(1, 4))] for _ in range(2)]
+        for _ in range(r.randint(4, 8)):
+            if r.random() < 0.5:
+                calls.append(["arr", copy.deepcopy(r.choice(batches))])
+            else:
+                calls.append(["rec", copy.deepcopy(r.choice(recs))])
+        ops.append(("wraparr", sd, r.choice([["cached"], ["cached", ("named", "n1")], ["ser"]]), calls))
     # a tree with quantities in every form
     kinds = ["Bin", "SparselyBin", "CentrallyBin", "IrregularlyBin", "Stack", "Fraction", "Select",
              "Label", "UntypedLabel", "Index", "Branch"] + ([] if rec == "scalar" else ["Categorize"])
@@ -169,6 +182,12 @@ def oracle(p, run, exact):
     fails = []
     wl = iter(getattr(m, "wraplog", []))
     prev = None
+    for log in getattr(m, "arrlog", []):
+        for k, c in enumerate(log):
+            if not c["same"]:
+                fails.append({"clause": "a wrapped function returns on every call what the function returns (arrays and scalars interleaved)  [C17_calls]",
+                              "call": k, "kind": c["kind"], "diff": "wrapper %r, function %r" % (c["got"], c["ref"])})
+                break
     for j, (o, ob) in enumerate(zip(p["ops"], obs)):
         if o[0] == "wrap":
             _, sd, ws, ds, rec = o
